@@ -24,4 +24,5 @@ done
 for f in "$WS/src/clients"/*; do [ -e "$GEN/$(basename "$f")" ] || rm -f "$f"; done
 (cd "$WS" && cargo build --release --offline --target-dir "$VERIF/target/net/target") >"$VERIF/target/logs/build-net.log" 2>&1 \
   || { grep -E "^(error|warning: unused)" -A12 "$VERIF/target/logs/build-net.log" | head -80 >&2; echo "HARNESS-ERROR: the emitted clients do not compile against the stub (build error, not a verdict; see target/logs/build-net.log)" >&2; exit 2; }
+[ "$id" = "build-only" ] && exit 0
 cd "$VERIF" && exec "$VERIF/target/net/target/release/net-harness" "$id" "$@"
